@@ -36,6 +36,11 @@ def run(res, tier, replay):
                 f0 = [(nm, b"d%d" % k) for k, nm in enumerate(bad)] + [(b"/plain%02d" % k, b"") for k in range(12)]
                 p = dict(chunk_size=rng.choice([128, 256, 4096]), density=rng.choice([0, 2]), with_index=True, version=3)
                 chm, exp = chmfmt.build(f0, (), rng, **p)
+            elif i in (13, 14) or (i % 50 in (33, 34)):
+                # listing chunks chained in an order that is not their physical order (the links, not the positions, define the directory); no index / index
+                used = set(); f0 = [(chmlib.rand_name(rng, used, maxlen=9), b"") for _ in range(rng.choice([30, 60]))]
+                p = dict(chunk_size=rng.choice([96, 128]), density=rng.choice([1, 2]), with_index=(i % 2 == 0), version=3)
+                chm, exp = chmfmt.build(f0, (), rng, chain_rng=random.Random(i), **p)
             elif i == 7 or (i % 100 == 57):
                 # more than 1024 chunks (chunk numbers above any small table size): tiny chunks, thousands of short names
                 f0 = [(b"/n%04d" % j, b"") for j in range(4200)]
